@@ -156,6 +156,11 @@ class Interp:
         visits = dict(visits)
         visits[key] = visits.get(key, 0) + 1
         if visits[key] > getattr(self, "max_visits", 3):
+            if getattr(self, "truncate_loops", False):
+                # bounded unrolling: the paths that go round a loop of the interpreted layer more often than the bound are not followed (the shorter
+                # ones - zero, one, two iterations - are); recorded, so that the evidence says the loop was unrolled and not summarised
+                self.truncated = getattr(self, "truncated", set()) | {short(f.demangled)[:100]}
+                return []
             raise Limit("loop in interpreted function %s (block %s)" % (f.demangled[:120], label))
         instrs = f.blocks[label]
         # phis first (parallel)
